@@ -67,20 +67,27 @@ impl FrameAckQueue {
                         last_entry.nonce ^= nonce;
                     }
                 } else {
-                    self.entries.push_back(frame::AckGroup {
-                        base_id: frame_id,
-                        bitfield: 0x00000001,
-                        nonce: nonce,
-                    });
+                    self.push_group(frame_id, nonce);
                 }
             } else {
-                self.entries.push_back(frame::AckGroup {
-                    base_id: frame_id,
-                    bitfield: 0x00000001,
-                    nonce: nonce,
-                });
+                self.push_group(frame_id, nonce);
             }
         }
+    }
+
+    fn push_group(&mut self, frame_id: u32, nonce: bool) {
+        // Acks leave this queue no faster than the send rate allows, while a peer may open a new
+        // group with every frame it sends. More pending groups than the frame window has IDs
+        // cannot belong to frames the sender still tracks: forget the oldest.
+        if self.entries.len() >= self.receive_window.size as usize {
+            self.entries.pop_front();
+        }
+
+        self.entries.push_back(frame::AckGroup {
+            base_id: frame_id,
+            bitfield: 0x00000001,
+            nonce: nonce,
+        });
     }
 
     pub fn pop(&mut self) -> Option<frame::AckGroup> {
